@@ -142,6 +142,30 @@ def generate(rng, tier, stats):
         elif rng.random() < 0.3 and "canary" in e["spec"]["strategy"]:
             del e["spec"]["strategy"]["canary"]
         out.append(c)
+    # a fully explicit spec (IsDefaulted accepts it, so the controller never fills anything in) on a canary in flight whose
+    # pods restarted: every optional field the reconcilers read (noRestartsDuration, the autoFail / autoPause durations)
+    # is absent in most of them
+    for i in range(40 if tier == "quick" else 600):
+        c = worldgen.gen_eds_world(rng, stats, {"scenario": rng.choice(["canary_running", "canary_running", "canary_failed"]),
+                                                "n": rng.choice([2, 3, 4])})
+        e = [o for o in c["objects"] if o["kind"] == "ExtendedDaemonSet"][0]
+        spec = gen_full_spec(rng, True)
+        can = spec["canary"]
+        can["validationMode"] = "auto"
+        can["duration"] = rng.choice(["1s", "60s", "600s"])
+        can["replicas"] = rng.choice([1, 2, "50%"])
+        spec["reconcileFrequency"] = "10s"
+        spec["rollingUpdate"].update({"maxUnavailable": 1, "maxPodSchedulerFailure": 1, "maxParallelPodCreation": 250,
+                                      "slowStartIntervalDuration": "60s", "slowStartAdditiveIncrease": 5})
+        e["spec"]["strategy"] = spec
+        for o in c["objects"]:
+            if o["kind"] == "ExtendedDaemonSetReplicaSet" and o["metadata"]["name"] == "foo-b":
+                conds = o["status"].setdefault("conditions", [])
+                if not any(x["type"] == "PodRestarting" for x in conds):
+                    conds.append(K.cond("PodRestarting", "True", trans=-400, update=rng.choice([-301, -30, -5])))
+        c["ops"] = c["ops"] + [histgen_all_ers(), K.reconcile("eds", worldgen.NS, worldgen.EDS)]
+        wprop.bump(stats, "explicit spec without the optional durations, canary pods restarted", "noRestartsDuration" if "noRestartsDuration" in can else "absent")
+        out.append(c)
     return out
 
 
